@@ -71,7 +71,7 @@ theorem level_congr (hsA hsB : List FileRec) (fA fB : Nat) (cA cB : List Text)
     sortChildren hsA (fA + 1) cA = sortChildren hsB (fB + 1) cB := by
   rw [sortChildren_unfold, sortChildren_unfold, hf, ← hd, go_congr hsA hsB fA fB _ hsub]
 
-theorem filterMap_congr' {α β : Type} (f g : α → Option β) : ∀ (l : List α), (∀ a ∈ l, f a = g a) →
+theorem filterMap_congrOn {α β : Type} (f g : α → Option β) : ∀ (l : List α), (∀ a ∈ l, f a = g a) →
     l.filterMap f = l.filterMap g := by
   intro l
   induction l with
@@ -95,12 +95,12 @@ theorem dirOf_congr (hsA hsB : List FileRec) (n : Text) (h : lookupHeader hsA n 
 theorem dirsOf_congr (hsA hsB : List FileRec) (l : List Text)
     (h : ∀ n ∈ l, lookupHeader hsA n = lookupHeader hsB n) : dirsOf hsA l = dirsOf hsB l := by
   rw [dirsOf_eq, dirsOf_eq]
-  exact filterMap_congr' _ _ l (fun n hn => dirOf_congr hsA hsB n (h n hn))
+  exact filterMap_congrOn _ _ l (fun n hn => dirOf_congr hsA hsB n (h n hn))
 
 theorem filesOf_congr (hsA hsB : List FileRec) (l : List Text)
     (h : ∀ n ∈ l, lookupHeader hsA n = lookupHeader hsB n) : filesOf hsA l = filesOf hsB l := by
   unfold filesOf
-  rw [filterMap_congr' _ _ l h]
+  rw [filterMap_congrOn _ _ l h]
 
 /-! ## dropping the records that are not emitted changes nothing -/
 
